@@ -70,7 +70,9 @@ type ecdheKeyAgreementGM struct {
 
 func (ka *ecdheKeyAgreementGM) generateServerKeyExchange(config *Config, signCert, cipherCert *Certificate,
 	clientHello *clientHelloMsg, hello *serverHelloMsg) (*serverKeyExchangeMsg, error) {
-	panic("")
+	// the server side of the ECDHE-SM2 key exchange is not implemented: a client that
+	// negotiates such a suite gets a handshake error, not a crash
+	return nil, errors.New("tls: ECDHE-SM2 key exchange is not supported on the server side")
 	//	preferredCurves := config.curvePreferences()
 	//
 	//NextCandidate:
@@ -169,7 +171,7 @@ func (ka *ecdheKeyAgreementGM) generateServerKeyExchange(config *Config, signCer
 }
 
 func (ka *ecdheKeyAgreementGM) processClientKeyExchange(config *Config, cert *Certificate, ckx *clientKeyExchangeMsg, version uint16) ([]byte, error) {
-	panic("")
+	return nil, errors.New("tls: ECDHE-SM2 key exchange is not supported on the server side")
 	//	if len(ckx.ciphertext) == 0 || int(ckx.ciphertext[0]) != len(ckx.ciphertext)-1 {
 	//		return nil, errClientKeyExchange
 	//	}
